@@ -39,7 +39,7 @@ RULE = (
     "Non-trivial = >= 3 files with a bad/unreadable one that is not last, or a non-default option.")
 ASSUMPTIONS = ['the S3 options (-b/-p/-s/-k) run against the fake S3 of C18',
                'inspect() output of the library is the reference for the inspect command (self-consistency)']
-MANDATORY = ['detect', 'inspect', 'merge', 'detect:s3', 'inspect:s3', 'merge:s3', 'merge:shape:completed-create', 'bad-file-not-last', 'missing-path', 'directory', 'completed-ro',
+MANDATORY = ['odd-file-names', 'file-listed-twice', 'detect', 'inspect', 'merge', 'detect:s3', 'inspect:s3', 'merge:s3', 'merge:shape:completed-create', 'bad-file-not-last', 'missing-path', 'directory', 'completed-ro',
              'merge:-o', 'merge:-o=input-file', 'merge:-i', 'merge:-n', 'merge:invalid-collection', 'merge:strict-failure',
              'merge:no-input']
 
@@ -61,8 +61,12 @@ def materialise(case, root):
     """Write the case's files below root; -> list of argument paths."""
     os.makedirs(root, exist_ok=True)
     args = []
+    names = case.get('names') or {}
     for i, (kind, content) in enumerate(case['files']):
-        p = os.path.join(root, f'f{i:02d}.mos.xml')
+        p = os.path.join(root, names.get(str(i)) or f'f{i:02d}.mos.xml')
+        if kind == 'same-as-first' and args:
+            args.append(args[0])
+            continue
         if kind == 'missing':
             p = os.path.join(root, f'missing{i:02d}.mos.xml')
         elif kind == 'dir':
@@ -136,7 +140,7 @@ def judge_s3(case, root):
     cmd = case['cmd']
     objs = {}
     for i, (kind, content) in enumerate(case['files']):
-        if kind in ('missing', 'dir'):
+        if kind in ('missing', 'dir', 'same-as-first'):
             continue
         name = f"pre/k{i:02d}" + ('.mos.xml' if kind != 'other-suffix' else '.txt')
         objs[name] = (content or '').encode('utf-8')
@@ -328,7 +332,15 @@ def listing_case(draw):
                    'empty': ''}.get(kind)
         files.insert(draw(st.integers(0, len(files))), ('garbage' if kind == 'empty' else kind, content))
     files = list(draw(gen.permutation(files))) if draw(st.booleans()) else files
-    return {'cmd': draw(st.sampled_from(['detect', 'inspect'])), 'files': [list(f) for f in files]}
+    names = {}
+    if draw(st.integers(0, 2)) == 0:
+        # unusual but legal file names; the same file listed a second time
+        for i in range(len(files)):
+            if draw(st.integers(0, 2)) == 0:
+                names[str(i)] = draw(st.sampled_from(['with space {}.mos.xml', 'é中 {}.xml', 'a=b{}.mos.xml', '{}', 'UPPER{}.MOS.XML',
+                                                      'x{}.mos.xml.bak', "it's{}.xml"])).format(i)
+        files.insert(draw(st.integers(1, len(files))), ('same-as-first', None))
+    return {'cmd': draw(st.sampled_from(['detect', 'inspect'])), 'files': [list(f) for f in files], 'names': names}
 
 
 @st.composite
@@ -377,6 +389,10 @@ def shard(args):
             cl.append('directory')
         if any(k == 'valid' and c and 'mosromgrmeta' in c for k, c in case['files']):
             cl.append('completed-ro')
+        if case.get('names'):
+            cl.append('odd-file-names')
+        if 'same-as-first' in kinds:
+            cl.append('file-listed-twice')
         col.record(case, len(kinds) >= 3 and not_last, cl, rejudge(case),
                    key=h64(case['cmd'], str(case['files'])))
     drive.run_given(listing_case(), one, n, seed)
